@@ -190,7 +190,10 @@ def u4(ctx, rid):
                 if nm == 'only_if_presented':
                     just.append(tt if neg else ff)
             if o.kind == 'call' and o.data.name == 'is_found' and 'ReadResult' in o.data.path:
-                just.append(ff if neg else tt)
+                # .. and nothing else may answer the question (`contains_key_fast` of an inlined `is_presented` helper says
+                # `present` for a key whose latest record is a marker)
+                if all(x.kind != 'call' or (x.data.name == 'is_found' and 'ReadResult' in x.data.path) for x in deep):
+                    just.append(ff if neg else tt)
     bad = []
     for a in appends:
         if a.bb in f.reach_from([0], avoid_enter=just):
@@ -819,6 +822,10 @@ def u17(ctx, rid):
                 continue
             ty = f.locals[op_local(c.args[0])]['s']
             if 'record::record::Meta' in ty or any('record::record::Meta' in t for t in prog.resolve(c)):
+                bad = c
+            # .. or the map inside it (a `Meta::is_empty` that was added and inlined: `self.0.is_empty()`)
+            root_l = core.access_root(f, op_local(c.args[0]))
+            if root_l is not None and root_l < len(f.locals) and 'record::record::Meta' in f.locals[root_l]['s'] and 'HashMap' in (c.path + c.full):
                 bad = c
     if n < 50:
         raise core.AnchorLost('functions of the lookup paths: %d' % n)
